@@ -54,10 +54,13 @@ HasSecret(c) == c = "A"
 \* rq = [codeclient, caller, secret, verifier, chal, redirect, code, via]
 ClientProven(rq) == /\ rq.caller \in Clients
                     /\ IF HasSecret(rq.caller) THEN rq.secret = "right"
-                       ELSE rq.verifier = "right" /\ rq.chal # "none"
+                       \* "challenge": the caller sends the code_challenge string itself as verifier - anybody who saw the
+                       \* authorization request can; only with the plain method is that the verifier
+                       ELSE (rq.verifier = "right" \/ (rq.verifier = "challenge" /\ rq.chal = "plain")) /\ rq.chal # "none"
 G_C12_ClientProven(rq) == ClientProven(rq)
 G_C12_CodeOwner(rq)    == rq.codeclient = rq.caller
-G_C12_Fresh(rq)        == rq.code = "fresh"
+\* fresh_late: redeemed a few seconds after the authorization (well inside the code's life): every bound counts from the authorization
+G_C12_Fresh(rq)        == rq.code \in {"fresh", "fresh_late"}
 G_C12_Redirect(rq)     == rq.redirect = "same"
 ReleaseGuards(rq) == {<<"G_C12_ClientProven", G_C12_ClientProven(rq)>>, <<"G_C12_CodeOwner", G_C12_CodeOwner(rq)>>,
                       <<"G_C12_Fresh", G_C12_Fresh(rq)>>, <<"G_C12_Redirect", G_C12_Redirect(rq)>>}
@@ -79,13 +82,16 @@ C12Guards(rq, o) == (IF o.released THEN ReleaseGuards(rq) \cup TokenGuards(rq, o
                     \cup {<<"G_C12_NothingElse", o.leak = <<>> >>}
 
 InC12(rq) == \E cc \in Clients, ca \in Clients \cup {"unknown"}, s \in {"right", "wrong", "absent"},
-                v \in {"right", "wrong", "absent"}, ch \in {"S256", "plain", "none"}, rd \in {"same", "different"},
-                cd \in {"fresh", "expired", "tampered", "cookie", "access"}, via \in {"header", "form"},
+                v \in {"right", "wrong", "absent", "challenge"}, ch \in {"S256", "plain", "none"}, rd \in {"same", "different"},
+                cd \in {"fresh", "expired", "tampered", "cookie", "access", "fresh_late"}, via \in {"header", "form"},
                 ap \in {"none", "allowed"} :
+                /\ (v = "challenge" => (cd = "fresh" /\ ch # "none" /\ ap = "none"))
+                /\ (cd = "fresh_late" => (cc = ca /\ rd = "same" /\ via = "form" /\ ap = "none" /\
+                                           ((ca = "A" /\ s = "right" /\ v = "absent" /\ ch = "none") \/ (ca = "B" /\ s = "absent" /\ v = "right" /\ ch = "S256"))))
                 \* audparam: the authorization request named an extra audience the client is allowed to choose (it belongs
                 \* in the ACCESS token; the ID token still names the client alone)
-                rq = [codeclient |-> cc, caller |-> ca, secret |-> s, verifier |-> v, chal |-> ch, redirect |-> rd,
-                      code |-> cd, via |-> via, audparam |-> ap]
+                /\ rq = [codeclient |-> cc, caller |-> ca, secret |-> s, verifier |-> v, chal |-> ch, redirect |-> rd,
+                         code |-> cd, via |-> via, audparam |-> ap]
 
 \* ------------------------------------------------------------------ behaviour spec (design check)
 VARIABLES req, out
@@ -114,6 +120,6 @@ NeverInterchangeable == (Which = "C04" /\ out # Pending /\ out.honoured) => req.
 OnlyOurSignature     == (Which = "C04" /\ out # Pending /\ out.honoured) => req.art.signer = "ours"
 AlterationRejected   == (Which = "C04" /\ out # Pending /\ req.art.mut \in {"tamper", "sigflip", "corrupt", "exp"}) => ~out.honoured
 OnlyToTheRightClient == (Which = "C12" /\ out # Pending /\ out.released) =>
-                           (req.caller = req.codeclient /\ req.code = "fresh" /\ req.redirect = "same" /\
-                            (req.caller = "A" => req.secret = "right") /\ (req.caller = "B" => req.verifier = "right"))
+                           (req.caller = req.codeclient /\ req.code \in {"fresh", "fresh_late"} /\ req.redirect = "same" /\
+                            (req.caller = "A" => req.secret = "right") /\ (req.caller = "B" => req.verifier \in {"right", "challenge"}))
 =============================================================================
